@@ -1,3 +1,6 @@
+// hostile.go: the hostile-name generator. A base document uses every place
+// where document text becomes Go text (identifier, literal, struct tag or
+// comment); a job overrides one place (or a few) with a string of the pool.
 package c02
 
 import (
@@ -62,6 +65,8 @@ func pool() []poolClass {
 		{Name: "framework-identifier", Strs: frameworkPool()},
 		{Name: "imported-package-name", Strs: []string{"http", "errors", "json", "jx", "uri", "conv", "validate", "ht", "fmt", "url", "time", "context", "otelogen", "metric", "trace", "semconv", "middleware", "ogenerrors", "ogenregex", "big", "math", "uuid", "netip", "bytes", "io", "mime", "multipart", "strings", "sort", "bits", "codes", "attribute", "net", "otel", "testing", "require"}},
 		{Name: "template-local", Strs: []string{"ctx", "request", "params", "response", "err", "s", "e", "d", "r", "w", "args", "c", "u", "q", "h", "req", "resp", "elem", "span", "stage", "cfg", "t", "ok", "v", "val", "k", "i", "m", "b", "res", "client", "server", "self", "this", "cookie", "name", "key", "value", "typ"}},
+		{Name: "handler-local-type", Strs: []string{"Request", "Response", "Params"}},
+		{Name: "wrapper-field-name", Strs: []string{"Response", "StatusCode", "status_code", "response", "Content", "ContentType"}},
 		{Name: "derived-name", Strs: []string{"GetItemParams", "GetItemOK", "GetItemRes", "GetItemOKHeaders", "GetItemNotFound", "MakeOtherReq", "MakeOtherRes", "MakeOtherOK", "OptBaseItem", "NilBaseItem", "OptNilBaseItem", "BaseItemKind", "BaseItemLevel", "BaseItemNested", "BaseSumType", "OptBaseItemKind", "BaseItemMapped", "BaseItemPat", "GetItemFilter", "GetItemDeep", "SendFormReq", "UploadReq", "UploadReqForm", "ItemCreatedOK", "KeyHeader", "KeyQuery", "BaseFaultStatusCode", "ServerProd", "Operation", "GetItemOperation", "R1abc"}},
 		{Name: "unicode", Text: true, Strs: []string{"é", "Ж", "日本語", "😀", "naïve café", "ａ", "e\u0301", "\u202eabc", "a\u200bb", "𝒳", "ǅ", "ß", "İ", "σς"}},
 		{Name: "digits-first", Strs: []string{"1abc", "007", "1", "0x1F", "1e3", "-1", "1.5", "2XX", "3d"}},
@@ -549,6 +554,18 @@ var regressionSlots = []Slot{
 	{Place: "schema-name", Class: "framework-identifier", Strs: []string{"Client"}},
 	{Place: "schema-name", Class: "framework-identifier", Strs: []string{"Server"}},
 	{Place: "schema-name", Class: "framework-identifier", Strs: []string{"Handler"}},
+	{Place: "schema-name", Class: "handler-local-type", Strs: []string{"Request"}},
+	{Place: "schema-name", Class: "handler-local-type", Strs: []string{"Response"}},
+	{Place: "response-header-name", Class: "wrapper-field-name", Strs: []string{"Response"}},
+	{Place: "discriminator-property", Class: "empty", Strs: []string{""}},
+	{Place: "operation-id", Class: "newline", Strs: []string{"a\nb"}},
+	{Place: "query-param-name", Class: "newline", Strs: []string{"a\nb"}},
+	{Place: "op-description", Class: "control-char", Strs: []string{"a\x00b"}},
+	{Place: "path-literal", Class: "control-char", Strs: []string{"a\ufeffb"}},
+	{Place: "response-header-name", Class: "collide-after-normalisation", Strs: []string{"x1", "x_1"}},
+	{Place: "server-variable-name", Class: "collide-after-normalisation", Strs: []string{"x-a", "X-A"}},
+	{Place: "server-name", Class: "unicode", Strs: []string{"ß"}},
+	{Place: "operation-group", Class: "predeclared", Strs: []string{"error"}},
 }
 
 func hostileJob(kind string, slots []Slot, fs FeatSet, id string) (*Job, error) {
